@@ -428,6 +428,19 @@ func (s *programState) getCachedBalance(account string, asset string) *big.Int {
 	return assetBalance
 }
 
+// Balance of the account (for the current asset) that is still available in the current
+// statement, that is, without the funds the statement already pulled from it
+// (the same account can appear many times in a source)
+func (s *programState) getAvailableBalance(account string) *big.Int {
+	available := new(big.Int).Set(s.getCachedBalance(account, s.CurrentAsset))
+	for _, sender := range s.Senders {
+		if sender.Name == account {
+			available.Sub(available, sender.Monetary)
+		}
+	}
+	return available
+}
+
 func (s *programState) sendAllToAccount(accountLiteral parser.ValueExpr, ovedraft *big.Int) (*big.Int, InterpreterError) {
 	account, err := evaluateExprAs(s, accountLiteral, expectAccount)
 	if err != nil {
@@ -440,7 +453,7 @@ func (s *programState) sendAllToAccount(accountLiteral parser.ValueExpr, ovedraf
 		}
 	}
 
-	balance := s.getCachedBalance(*account, s.CurrentAsset)
+	balance := s.getAvailableBalance(*account)
 
 	// we sent balance+overdraft
 	sentAmt := new(big.Int).Add(balance, ovedraft)
@@ -531,7 +544,7 @@ func (s *programState) trySendingToAccount(accountLiteral parser.ValueExpr, amou
 		// unbounded overdraft: we send the required amount
 		actuallySentAmt = new(big.Int).Set(amount)
 	} else {
-		balance := s.getCachedBalance(*account, s.CurrentAsset)
+		balance := s.getAvailableBalance(*account)
 
 		// that's the amount we are allowed to send (balance + overdraft)
 		safeSendAmt := new(big.Int).Add(balance, overdraft)
